@@ -1,6 +1,7 @@
 import MdIt.Pipeline
 import MdIt.Drv.InlineX
 import MdIt.Drv.Mini
+import MdIt.Drv.Render
 /-! Driver: `fullparse <blockbits> <maxNesting> <inlinerules> <fragjoin> <inlineOn> <textjoin> <entities> <reformat> <normtext> <hasrefs>
 <storelabels> <refhref> <reftitle> <normref> <src>` — `MarkdownIt.parse` end to end for the modelled sub-language: block bits as for
 `mblock` (`code fence hr heading html_block lheading html`), inline rule letters as for `inlinei`; full token records, children included. -/
@@ -63,6 +64,43 @@ def fullParseRLine (toks : List String) : String :=
     match fullParseR drvCls ext lx rc ic Gen.pyWhitespace m ((m.toNat + 2) * (cs.length / 4 + 2)) cs with
     | .error e => "e:" ++ e.tag
     | .ok (ts, refs, dups) => "ok " ++ " ".intercalate (encToks ts) ++ " #refs " ++ encRefs refs ++ " #dups " ++ encRefs dups
+  | _ => "bad-request"
+
+/-- the fence renderer's language name: first word of `unescapeAll(info).strip()` -/
+def fenceLangOf (ext : IExt) (ws : List Nat) (t : Tok) : Option (List Char) :=
+  let i := pyStrip ws (unescapeAllX ext t.info.toList)
+  if i.isEmpty then none else some (i.takeWhile (fun c => !ws.contains c.toNat))
+
+/-- `fullrender <xhtmlOut> <breaks> <langPrefix> <fullparser arguments…>` — `MarkdownIt.render` end to end: the HTML of the whole
+    pipeline (parse as `fullparser`, then the renderer model) -/
+def fullRenderLine (toks : List String) : String :=
+  match toks with
+  | [xh, brk, lp, bits, mn, rs, fj, inl, tj, ents, refm, ntxt, hasRefs, storeLabels, refHref, refTitle, normRef, src] =>
+    let b := bits.toList.map (· == '1')
+    let rc : RCfg := { code := b.getD 0 false, fence := b.getD 1 false, hr := b.getD 2 false, heading := b.getD 3 false,
+                       htmlBlock := b.getD 4 false, lheading := b.getD 5 false, html := b.getD 6 false,
+                       reference := b.getD 7 false, inlineDefs := b.getD 8 false }
+    let ext := mkExt rc.html (decPairs ents) (decPairs refm) (decPairs ntxt)
+    let hrefs := decPairs refHref
+    let titles := decPairs refTitle
+    let nrefs := decPairs normRef
+    let lx : LExt := { hasRefs := decBool hasRefs, storeLabels := decBool storeLabels
+                       normRef := fun l => (lookupC nrefs l).getD missMark
+                       refs := fun l => match lookupC hrefs l with
+                         | some h => some (h, (lookupC titles l).getD [])
+                         | none => none }
+    let has := fun (c : Char) => rs.toList.contains c
+    let ic : ICfg := { text := has 't', newline := has 'n', escape := has 'e', backticks := has 'b', strike := has 's', emphasis := has 'm',
+                       link := has 'l', image := has 'i', autolink := has 'a', htmlInline := has 'h', entity := has 'y',
+                       fragJoin := decBool fj, inlineOn := decBool inl, textJoinOn := decBool tj }
+    let m := mn.toInt!
+    let cs := decChars src
+    match fullParseR drvCls ext lx rc ic Gen.pyWhitespace m ((m.toNat + 2) * (cs.length / 4 + 2)) cs with
+    | .error e => "e:" ++ e.tag
+    | .ok (ts, _, _) =>
+      match render { fenceLang := fenceLangOf ext Gen.pyWhitespace } ⟨decBool xh, decBool brk, decChars lp⟩ ts with
+      | .ok h => "ok " ++ encChars h
+      | .error e => "e:render:" ++ e.tag
   | _ => "bad-request"
 
 end MdIt.Drv
